@@ -79,7 +79,7 @@ J._continue = lambda job: _CONT.append(job["num_"])
 
 NUMSETS = {
     "quick": [(), (1,), (2,), (1, 2), (2, 3), (1, 2, 3), (2, 3, 5)],
-    "thorough": [c for n in range(0, 5) for c in itertools.combinations(range(1, 7), n)],
+    "thorough": [c for n in range(0, 4) for c in itertools.combinations(range(1, 6), n)] + [(1, 2, 3, 4), (2, 3, 5, 6)],
 }
 
 
@@ -396,7 +396,7 @@ def _parts(tier, extra=({},)):
     return [dict(nums=ns, **e) for ns in NUMSETS[tier] for e in extra]
 
 
-_B = "tables of <=3 jobs over numbers 1..5 (quick) / <=4 jobs over 1..6, every subset (thorough); every MRU permutation; per job alive/bg/stopped symbolic"
+_B = "tables of <=3 jobs over numbers 1..5 (quick) / every set of <=3 jobs over 1..5 plus two sets of 4 jobs (thorough); every MRU permutation; per job alive/bg/stopped symbolic"
 OBLIGATIONS = [
     Obligation("add_job", ob_add, bounds=_B, pre=["len(alive) == len(nums)", "len(bgs) == len(nums)", "len(stopped) == len(nums)"],
                parts={"quick": _parts("quick"), "thorough": _parts("thorough")}, timeout={"quick": 120, "thorough": 900},
